@@ -140,7 +140,39 @@ pub(crate) fn str_split(mut args: ArgumentResult, visitor: &mut Visitor) -> Sass
 
     let limit = args.default_arg(2, "limit", Value::Null);
 
-    let vec = if matches!(limit, Value::Null) {
+    let vec = if separator.is_empty() {
+        // an empty separator splits into characters (`str::split("")` would add an empty
+        // string at both ends); a limit keeps the rest of the string as the last element
+        let limit = match limit {
+            Value::Null => None,
+            limit => {
+                let limit = limit.assert_number_with_name("limit", args.span())?;
+                let limit_int = limit.assert_int_with_name("limit", args.span())?;
+                if limit_int < 1 {
+                    return Err((
+                        format!("$limit: Must be 1 or greater, was {}.", limit_int),
+                        args.span(),
+                    )
+                        .into());
+                }
+                Some(limit_int as usize)
+            }
+        };
+        let mut chars = s1.chars();
+        let mut pieces: Vec<String> = chars
+            .by_ref()
+            .take(limit.unwrap_or(usize::MAX))
+            .map(String::from)
+            .collect();
+        let rest: String = chars.collect();
+        if !rest.is_empty() {
+            pieces.push(rest);
+        }
+        pieces
+            .into_iter()
+            .map(|s| Value::String(s, QuoteKind::Quoted))
+            .collect()
+    } else if matches!(limit, Value::Null) {
         s1.split(&separator)
             .map(|s| Value::String(s.to_string(), QuoteKind::Quoted))
             .collect()
